@@ -43,6 +43,7 @@ type world struct {
 	down     bool // ShutdownComplete.Wait returned and no Start invoked since
 	windows  []*window
 	shuts    []*callIv
+	panicOpt bool
 	pending  int    // ghost: tasks whose Submit returned accepted and whose function has not finished
 	timeline []tlev // (a subset of the truly pending tasks at every instant)
 }
@@ -85,6 +86,25 @@ func (w *world) submit(p *workerpool.WorkerPool, id string, yields int, nested i
 	prev := w.inflight[me]
 	w.inflight[me] = sb
 	sb.inv = s.Tick()
+	panicked, pv := hx.Try(func() { w.doSubmit(p, sb, id, yields, nested) })
+	if panicked {
+		// WithPanicOnSubmitAfterShutdown: a rejected Submit panics instead of returning; the caller recovers
+		if !w.panicOpt || sb.accepted {
+			s.Fail("submit", "unexpected-panic", "Submit of %s panicked (panic option %v, accepted %v): %v", id, w.panicOpt, sb.accepted, pv)
+		}
+		s.Probe("submit-rejected-by-panic")
+	}
+	sb.ret = s.Tick()
+	if sb.accepted && !sb.early {
+		sb.counted = true
+		w.ghost(1)
+	}
+	w.inflight[me] = prev
+	s.Logf("submit %s accepted=%v panicked=%v", id, sb.accepted, panicked)
+}
+
+func (w *world) doSubmit(p *workerpool.WorkerPool, sb *subm, id string, yields int, nested int) {
+	s := w.s
 	p.Submit(func() {
 		sb.starts++
 		sb.startStep = s.Tick()
@@ -112,13 +132,6 @@ func (w *world) submit(p *workerpool.WorkerPool, id string, yields int, nested i
 		}
 		s.Logf("task %s done", id)
 	})
-	sb.ret = s.Tick()
-	if sb.accepted && !sb.early {
-		sb.counted = true
-		w.ghost(1)
-	}
-	w.inflight[me] = prev
-	s.Logf("submit %s accepted=%v", id, sb.accepted)
 }
 
 // overlapsShutdown: the Submit call was in flight during some Shutdown() call.
@@ -189,16 +202,17 @@ func pool(s *simrt.Sim, restart bool) {
 	w := &world{s: s, inflight: map[*simrt.Task]*subm{}}
 	nworkers := 1 + s.Choose(3)
 	cancel := s.Choose(2) == 1
-	p := workerpool.New("p", workerpool.WithWorkerCount(nworkers), workerpool.WithCancelPendingTasksOnShutdown(cancel))
+	w.panicOpt = s.Choose(3) == 2
+	p := workerpool.New("p", workerpool.WithWorkerCount(nworkers), workerpool.WithCancelPendingTasksOnShutdown(cancel), workerpool.WithPanicOnSubmitAfterShutdown(w.panicOpt))
 	w.watch(p)
 	s.Logf("config workers=%d cancel=%v restart=%v", nworkers, cancel, restart)
 	p.Start()
 	win := &window{from: s.Tick()}
 	w.windows = append(w.windows, win)
 
-	nsub := 1 + s.Choose(3)
+	nsub := 1 + s.Choose(simrt.Bound(3, 4))
 	for i := 0; i < nsub; i++ {
-		n := 1 + s.Choose(3)
+		n := 1 + s.Choose(simrt.Bound(3, 5))
 		type spec struct{ yields, nested int }
 		specs := make([]spec, n)
 		for j := range specs {
